@@ -24,6 +24,8 @@ PAL = {
     4: [0.0, 0.0, 1.0, 0.0, PI - 1e-3, 0.0],           # angle pi - 1e-3
     5: [2.0, 0.0, -1.0, 0.0, 0.0, 2 * PI + 0.5],       # angle 2 pi + 0.5
     6: [0.0, 1.0, 0.0, PI - 1e-3, 0.0, 0.0],           # angle pi - 1e-3 about another axis
+    7: [0.3, -0.2, 0.5, 2 * PI + 0.5, 1.0, 0.0],       # first rotation entry beyond 2 pi, generic axis
+    8: [-1.0, 0.0, 2.0, 0.4, -(2 * PI + 1.0), 0.2],    # second rotation entry beyond -2 pi
 }
 SCAL = {1: 2.0, 2: -0.5, 3: 0.7}
 
@@ -305,8 +307,9 @@ def run(ctx):
     ctx.add_tlc("model depth 3", r)
     if not r.ok:
         ctx.model_violation("TmObject model", r)
-    plans = [("depth1-all", cfg(1, "AllForms", "{1,2,3,4,5,6}", "{1,2,3}", "Both", "NoOps", "gen")),
-             ("depth2-all", cfg(2, "AllForms", "{3,4,5}", "{1,2}", "Both", "NoOps", "gen"))]
+    plans = [("depth1-all", cfg(1, "AllForms", "{1,2,3,4,5,6,7,8}", "{1,2,3}", "Both", "NoOps", "gen")),
+             ("depth2-all", cfg(2, "AllForms", "{3,4,5,7}", "{1,2}", "Both", "NoOps", "gen")),
+             ("depth3-wrap", cfg(3, "MiniForms", "{7,8}", "{2}", "One", "NoOps", "gen", "WrapOps"))]
     if ctx.quick:
         plans.append(("depth3-core", cfg(3, "MiniForms", "{4}", "{2}", "One", "CtorOps", "gen")))
     else:
@@ -341,7 +344,7 @@ def run(ctx):
     sim_total = 0
     with ctx.timed("simulate"):
         for depth in ((4, 6, 9, 12) if ctx.quick else (4, 5, 6, 7, 8, 9, 10, 11, 12)):
-            g = tlc.run("TmObjectMC", cfg_text=cfg(depth, "AllForms", "{1,2,3,4,5}", "{1,2,3}", "Both", "NoOps", "gen"),
+            g = tlc.run("TmObjectMC", cfg_text=cfg(depth, "AllForms", "{1,2,3,4,5,7,8}", "{1,2,3}", "Both", "NoOps", "gen"),
                         simulate="num=%d" % n_sim, depth=depth + 1, seed=ctx.seed + depth, workers=4, timeout=600)
             ctx.add_tlc("simulate-depth%d" % depth, g)
             behs = g.json
